@@ -1,0 +1,227 @@
+//go:build verif
+
+package unknown
+
+// Contracts for the keep_unknown_fields runtime (property C09, the re-write half). Comment-only file, read by
+// /verif/engine (govc).
+//
+// Ghost state: the output stream $wstream = the bytes the target protocol has been asked to write so far
+// (wpos() its length, wbyte(k) the byte at k, wbool(k) whether that byte was produced by WriteBool).
+// wrote(n): exactly n bytes in 0..255 were appended and nothing before them changed; wkept(): the stream only grew.
+// bepack/wbe: big-endian value of consecutive bytes; sgn(x, n): two's complement reading of x in 0 .. 2^n-1;
+// usg(v, n): unsigned reading of the signed n-bit value v; umod(x, n): x mod 2^n (what a conversion to an n-bit unsigned keeps).
+
+// nb: the byte a conforming reader sees. A bool is decoded as (byte == 1), so WriteBool(ReadBool(b)) normalises b.
+//@ pure func nb(isbool bool, x byte) int { return ite(isbool, ite(x == 1, 1, 0), x) }
+
+// ---- binary.go decoders: total on every slice, consume what they report, big-endian ----
+
+//@ func (binaryProtocol) ReadByte(buf []byte) (value int8, length int, err error)
+//@   ensures err == nil ==> len(buf) >= 1 && length == 1 && usg(value, 8) == buf[0]
+//@   ensures err != nil ==> length == 0
+
+//@ func (binaryProtocol) ReadBool(buf []byte) (value bool, length int, err error)
+//@   ensures err == nil ==> len(buf) >= 1 && length == 1 && value == (buf[0] == 1)
+//@   ensures err != nil ==> length == 0
+
+//@ func (binaryProtocol) ReadI16(buf []byte) (value int16, length int, err error)
+//@   ensures err == nil ==> len(buf) >= 2 && length == 2 && usg(value, 16) == bepack(buf, 0, 2)
+//@   ensures err != nil ==> length == 0
+
+//@ func (binaryProtocol) ReadI32(buf []byte) (value int32, length int, err error)
+//@   ensures err == nil ==> len(buf) >= 4 && length == 4 && usg(value, 32) == bepack(buf, 0, 4)
+//@   ensures err != nil ==> length == 0
+
+//@ func (binaryProtocol) ReadI64(buf []byte) (value int64, length int, err error)
+//@   ensures err == nil ==> len(buf) >= 8 && length == 8 && usg(value, 64) == bepack(buf, 0, 8)
+//@   ensures err != nil ==> length == 0
+
+//@ func (binaryProtocol) ReadDouble(buf []byte) (value float64, length int, err error)
+//@   ensures err == nil ==> len(buf) >= 8 && length == 8 && fltbits(value) == bepack(buf, 0, 8)
+//@   ensures err != nil ==> length == 0
+
+//@ func (binaryProtocol) ReadString(buf []byte) (value string, length int, err error)
+//@   ensures 0 <= length && length <= len(buf)
+//@   ensures err == nil ==> length == 4 + len(value) && len(value) == bepack(buf, 0, 4)
+//@   ensures err == nil ==> forall j int :: 0 <= j && j < len(value) ==> value[j] == buf[4+j]
+
+//@ func (binaryProtocol) ReadFieldBegin(buf []byte) (name string, typeID int, id int16, length int, err error)
+//@   ensures 0 <= length && length <= len(buf)
+//@   ensures err == nil ==> len(buf) >= 1 && typeID == sgn(buf[0], 8)
+//@   ensures err == nil && typeID == 0 ==> length == 1
+//@   ensures err == nil && typeID != 0 ==> length == 3 && usg(id, 16) == bepack(buf, 1, 2)
+
+//@ func (binaryProtocol) ReadMapBegin(buf []byte) (keyType, valueType, size, length int, err error)
+//@   ensures 0 <= length && length <= len(buf)
+//@   ensures err == nil ==> length == 6 && keyType == sgn(buf[0], 8) && valueType == sgn(buf[1], 8)
+//@   ensures err == nil ==> size == bepack(buf, 2, 4)
+
+//@ func (binaryProtocol) ReadListBegin(buf []byte) (elemType, size, length int, err error)
+//@   ensures 0 <= length && length <= len(buf)
+//@   ensures err == nil ==> length == 5 && elemType == sgn(buf[0], 8) && size == bepack(buf, 1, 4)
+
+//@ func (binaryProtocol) ReadSetBegin(buf []byte) (elemType, size, length int, err error)
+//@   ensures 0 <= length && length <= len(buf)
+//@   ensures err == nil ==> length == 5 && elemType == sgn(buf[0], 8) && size == bepack(buf, 1, 4)
+
+//@ func (binaryProtocol) ReadStructBegin(buf []byte) (name string, length int, err error)
+//@   ensures length == 0 && err == nil
+
+//@ func (binaryProtocol) ReadStructEnd(buf []byte) (int, error)
+//@   ensures result0 == 0 && result1 == nil
+
+//@ func (binaryProtocol) ReadFieldEnd(buf []byte) (int, error)
+//@   ensures result0 == 0 && result1 == nil
+
+//@ func (binaryProtocol) ReadMapEnd(buf []byte) (int, error)
+//@   ensures result0 == 0 && result1 == nil
+
+//@ func (binaryProtocol) ReadListEnd(buf []byte) (int, error)
+//@   ensures result0 == 0 && result1 == nil
+
+//@ func (binaryProtocol) ReadSetEnd(buf []byte) (int, error)
+//@   ensures result0 == 0 && result1 == nil
+
+// ---- compatible.go: the target protocol, reached by reflection. Assumed: it is a Thrift binary protocol ----
+// (every Write* appends the binary-protocol encoding of its arguments, or fails having appended some prefix).
+
+//@ func (p *protocol) WriteBool(ctx context.Context, value bool) (err error)
+//@   trusted
+//@   modifies $wstream
+//@   ensures err == nil ==> wrote(1) && wbool(old(wpos())) && wbyte(old(wpos())) == ite(value, 1, 0)
+//@   ensures err != nil ==> wkept()
+
+//@ func (p *protocol) WriteByte(ctx context.Context, value int8) (err error)
+//@   trusted
+//@   modifies $wstream
+//@   ensures err == nil ==> wrote(1) && wplain(1) && wbyte(old(wpos())) == usg(value, 8)
+//@   ensures err != nil ==> wkept()
+
+//@ func (p *protocol) WriteI16(ctx context.Context, value int16) (err error)
+//@   trusted
+//@   modifies $wstream
+//@   ensures err == nil ==> wrote(2) && wplain(2) && wbe(old(wpos()), 2) == usg(value, 16)
+//@   ensures err != nil ==> wkept()
+
+//@ func (p *protocol) WriteI32(ctx context.Context, value int32) (err error)
+//@   trusted
+//@   modifies $wstream
+//@   ensures err == nil ==> wrote(4) && wplain(4) && wbe(old(wpos()), 4) == usg(value, 32)
+//@   ensures err != nil ==> wkept()
+
+//@ func (p *protocol) WriteI64(ctx context.Context, value int64) (err error)
+//@   trusted
+//@   modifies $wstream
+//@   ensures err == nil ==> wrote(8) && wplain(8) && wbe(old(wpos()), 8) == usg(value, 64)
+//@   ensures err != nil ==> wkept()
+
+//@ func (p *protocol) WriteDouble(ctx context.Context, value float64) (err error)
+//@   trusted
+//@   modifies $wstream
+//@   ensures err == nil ==> wrote(8) && wplain(8) && wbe(old(wpos()), 8) == fltbits(value)
+//@   ensures err != nil ==> wkept()
+
+//@ func (p *protocol) WriteString(ctx context.Context, value string) (err error)
+//@   trusted
+//@   modifies $wstream
+//@   ensures err == nil ==> wrote(4 + len(value)) && wplain(4 + len(value)) && wbe(old(wpos()), 4) == umod(len(value), 32)
+//@   ensures err == nil ==> forall k int :: old(wpos()) + 4 <= k && k < wpos() ==> wbyte(k) == value[k - old(wpos()) - 4]
+//@   ensures err != nil ==> wkept()
+
+//@ func (p *protocol) WriteMapBegin(ctx context.Context, keyType, valueType, size int) (err error)
+//@   trusted
+//@   modifies $wstream
+//@   ensures err == nil ==> wrote(6) && wplain(6) && wbyte(old(wpos())) == umod(keyType, 8) && wbyte(old(wpos()) + 1) == umod(valueType, 8)
+//@   ensures err == nil ==> wbe(old(wpos()) + 2, 4) == umod(size, 32)
+//@   ensures err != nil ==> wkept()
+
+//@ func (p *protocol) WriteListBegin(ctx context.Context, elemType, size int) (err error)
+//@   trusted
+//@   modifies $wstream
+//@   ensures err == nil ==> wrote(5) && wplain(5) && wbyte(old(wpos())) == umod(elemType, 8) && wbe(old(wpos()) + 1, 4) == umod(size, 32)
+//@   ensures err != nil ==> wkept()
+
+//@ func (p *protocol) WriteSetBegin(ctx context.Context, elemType, size int) (err error)
+//@   trusted
+//@   modifies $wstream
+//@   ensures err == nil ==> wrote(5) && wplain(5) && wbyte(old(wpos())) == umod(elemType, 8) && wbe(old(wpos()) + 1, 4) == umod(size, 32)
+//@   ensures err != nil ==> wkept()
+
+//@ func (p *protocol) WriteFieldBegin(ctx context.Context, name string, typeID int, id int16) (err error)
+//@   trusted
+//@   modifies $wstream
+//@   ensures err == nil ==> wrote(3) && wplain(3) && wbyte(old(wpos())) == umod(typeID, 8) && wbe(old(wpos()) + 1, 2) == usg(id, 16)
+//@   ensures err != nil ==> wkept()
+
+//@ func (p *protocol) WriteFieldStop(ctx context.Context) (err error)
+//@   trusted
+//@   modifies $wstream
+//@   ensures err == nil ==> wrote(1) && wplain(1) && wbyte(old(wpos())) == 0
+//@   ensures err != nil ==> wkept()
+
+//@ func (p *protocol) WriteFieldEnd(ctx context.Context) (err error)
+//@   trusted
+//@   modifies $wstream
+//@   ensures err == nil ==> wrote(0)
+//@   ensures err != nil ==> wkept()
+
+//@ func (p *protocol) WriteMapEnd(ctx context.Context) (err error)
+//@   trusted
+//@   modifies $wstream
+//@   ensures err == nil ==> wrote(0)
+//@   ensures err != nil ==> wkept()
+
+//@ func (p *protocol) WriteListEnd(ctx context.Context) (err error)
+//@   trusted
+//@   modifies $wstream
+//@   ensures err == nil ==> wrote(0)
+//@   ensures err != nil ==> wkept()
+
+//@ func (p *protocol) WriteSetEnd(ctx context.Context) (err error)
+//@   trusted
+//@   modifies $wstream
+//@   ensures err == nil ==> wrote(0)
+//@   ensures err != nil ==> wkept()
+
+//@ func (p *protocol) WriteStructEnd(ctx context.Context) (err error)
+//@   trusted
+//@   modifies $wstream
+//@   ensures err == nil ==> wrote(0)
+//@   ensures err != nil ==> wkept()
+
+//@ func convert(x interface{}) (*protocol, error)
+//@   trusted
+//@   ensures result1 == nil ==> result0 != nil
+
+// ---- unknown.go: re-writing the stored bytes ----
+// write consumes fs[0:offset] and, on success, has appended exactly those bytes (bool bytes normalised) to the
+// target: nothing dropped, duplicated or reordered, at any nesting depth.
+
+//@ func write(oprot *protocol, name string, fieldType int, id int16, fs []byte) (offset int, err error)
+//@   requires oprot != nil
+//@   modifies $wstream
+//@   decreases len(fs)
+//@   ensures 0 <= offset && offset <= len(fs)
+//@   ensures err == nil ==> wrote(offset)
+//@   ensures err == nil ==> forall k int :: old(wpos()) <= k && k < wpos() ==> wbyte(k) == nb(wbool(k), fs[k - old(wpos())])
+//@   ensures err != nil ==> wkept()
+//@   ensures err == nil ==> fieldType == 2 || fieldType == 3 || fieldType == 4 || fieldType == 6 || fieldType == 8 || (10 <= fieldType && fieldType <= 15)
+//@   loop 1 invariant 0 <= i && i <= size && 5 <= offset && offset <= len(fs) && wrote(offset)
+//@   loop 1 invariant forall k int :: old(wpos()) <= k && k < wpos() ==> wbyte(k) == nb(wbool(k), fs[k - old(wpos())])
+//@   loop 2 invariant 0 <= i && i <= size && 5 <= offset && offset <= len(fs) && wrote(offset)
+//@   loop 2 invariant forall k int :: old(wpos()) <= k && k < wpos() ==> wbyte(k) == nb(wbool(k), fs[k - old(wpos())])
+//@   loop 3 invariant 0 <= i && i <= size && 6 <= offset && offset <= len(fs) && wrote(offset)
+//@   loop 3 invariant forall k int :: old(wpos()) <= k && k < wpos() ==> wbyte(k) == nb(wbool(k), fs[k - old(wpos())])
+//@   loop 4 invariant 0 <= offset && offset <= len(fs) && wrote(offset)
+//@   loop 4 invariant forall k int :: old(wpos()) <= k && k < wpos() ==> wbyte(k) == nb(wbool(k), fs[k - old(wpos())])
+//@   loop 4 decreases len(fs) - offset
+
+//@ func (fs *Fields) Write(xprot TProtocol) (err error)
+//@   requires fs != nil
+//@   modifies $wstream
+//@   ensures err == nil ==> wrote(len(*fs))
+//@   ensures err == nil ==> forall k int :: old(wpos()) <= k && k < wpos() ==> wbyte(k) == nb(wbool(k), (*fs)[k - old(wpos())])
+//@   ensures err != nil ==> wkept()
+//@   loop 1 invariant 0 <= offset && offset <= len(rbuf) && wrote(offset)
+//@   loop 1 invariant forall k int :: old(wpos()) <= k && k < wpos() ==> wbyte(k) == nb(wbool(k), rbuf[k - old(wpos())])
+//@   loop 1 decreases len(rbuf) - offset
